@@ -324,7 +324,7 @@ fn part_a(tier: Tier, findings: &Mutex<Findings>) -> serde_json::Value {
                             (g, w) => format!("placement gives {:?} but the CLI-only equivalent gives {:?}", g.as_ref().map(|_| "Ok").map_err(Clone::clone), w.as_ref().map(|_| "Ok").map_err(Clone::clone)),
                         };
                         let key = format!("precedence:{}", o.cli);
-                        findings.lock().unwrap().entry(key.clone()).or_insert(Finding {
+                        findings.lock().unwrap().entry(key.clone()).or_insert_with(|| Finding {
                             key,
                             detail: format!("[context {cname}; {} file={} cli={}] {detail}", o.cli, show(f, false), show(c, true)),
                             replay: json!({"check":"C16","part":"a-sweep","context":cname,"option":o.cli,"file":show(f, false),"cli":show(c, true)}),
